@@ -44,7 +44,7 @@ NMsg(m) ==
     ELSE m
 
 NTx(t) == [msgs |-> [i \in DOMAIN t.msgs |-> NMsg(t.msgs[i])], signers |-> R(t.signers), fee |-> t.fee, exec |-> t.exec,
-           fee2 |-> IF "fee2" \in DOMAIN t THEN t.fee2 ELSE 0]
+           fee2 |-> IF "fee2" \in DOMAIN t THEN t.fee2 ELSE 0, tip |-> IF "tip" \in DOMAIN t THEN t.tip ELSE "none"]
 
 NAct(a) ==
     CASE a.name = "Deliver" -> [name |-> "Deliver", tx |-> NTx(a.tx), result |-> a.result, failIdx |-> a.failIdx, code |-> a.code, offs |-> a.offs]
